@@ -111,6 +111,18 @@ func main() {
 	case "crashchild":
 		crashChildMain(*out, *backend)
 		return
+	case "idx":
+		rep = runIdxStream(*seed, *n, *out, *backend)
+	case "cursor":
+		rep = runCursorStream(*seed, *n, *out)
+	case "twin":
+		rep = runTwinStream(*seed, *n, *out, *backend)
+	case "scale":
+		rep = runScaleStream(*seed, *n, *out, *backend, *tier)
+	case "conc":
+		rep = runConcStream(*seed, *n, *out, *backend)
+	case "json":
+		rep = runJSONStream(*seed, *n, *out, *backend)
 	case "fault":
 		rep = runFaultStream(*seed, *n, *out, *backend, *tier)
 	case "hist":
@@ -125,6 +137,7 @@ func main() {
 		fmt.Fprintln(os.Stderr, "unknown stream", stream)
 		os.Exit(2)
 	}
+	cleanupTemps()
 	rep.WallS = time.Since(start).Seconds()
 	writeJSON(filepath.Join(*out, "report_"+stream+".json"), rep)
 }
